@@ -208,6 +208,10 @@ func propC11(p *Prog, r *Report) {
 	r.Rule("C11.g", "chunk discipline: the GetFile handler sends buf[:n] of the Read that filled the buffer; the stream writer sends a non-empty remainder before CloseAndRecv and returns every Send / CloseAndRecv error")
 	c11Chunks(p, r, "C11.g")
 	c11CtxFromCaller(p, r, "C11.c")
+	r.Rule("C11.j", "the external transaction handle always asks the server: every return of Commit / Rollback is preceded by the RPC")
+	c11ClientAlwaysAsks(p, r, "C11.j")
+	r.Rule("C11.k", "the handlers originate no sentinel of their own except the protocol error ErrHeaderNotFound")
+	c11HandlersOriginateNoSentinels(p, r, "C11.k")
 	r.Rule("C11.h", "write order is wire order: in the stream writer's Write no Send takes its payload from the argument of the current call while earlier bytes may still be buffered (the buffer is tested or drained first)")
 	c11WriterFIFO(p, r, "C11.h")
 	r.Rule("C11.i", "no transport option lowers the gRPC message size limit below the library default (keys are unbounded and travel in one message)")
